@@ -917,10 +917,22 @@ class BoolAbs:
             raise AnalysisError("comparison operator outside the fragment")
         left = _strip_np(e.left)
         right = _strip_np(e.comparators[0])
-        # normalise  (a - b) op 0  ==>  a op b
-        if isinstance(left, ast.BinOp) and isinstance(left.op, ast.Sub) and isinstance(right, ast.Constant) and right.value == 0:
+        # one orientation: a > b is b < a
+        if op in (">", ">="):
+            left, right, op = right, left, {">": "<", ">=": "<="}[op]
+
+        def zero(x):
+            return isinstance(x, ast.Constant) and x.value == 0 and not isinstance(x.value, bool)
+
+        # normalise  (a - b) op 0  ==>  a op b   and   0 op (a - b)  ==>  b op a
+        if isinstance(left, ast.BinOp) and isinstance(left.op, ast.Sub) and zero(right):
             left, right = _strip_np(left.left), _strip_np(left.right)
-        return f"{norm_src(left)} {op} {norm_src(right)}"
+        elif isinstance(right, ast.BinOp) and isinstance(right.op, ast.Sub) and zero(left):
+            left, right = _strip_np(right.right), _strip_np(right.left)
+        lt, rt = norm_src(left), norm_src(right)
+        if op in ("==", "!=") and lt > rt:
+            lt, rt = rt, lt
+        return f"{lt} {op} {rt}"
 
 
 def _strip_np(e):
